@@ -77,6 +77,24 @@ static std::string sized_request(const std::string& id, size_t total, int kind, 
 static void run_c14s(long cases) {
     lv::ip().enabled = true; lv::ip().capAccepted = true;
     Rng r(g_opts.seed * 3001 + (uint64_t)g_opts.shard);
+    if (g_opts.shard == 0) {
+        // "no limit" style settings: a small request is within any of them
+        for (size_t L : {std::numeric_limits<size_t>::max(), (size_t(1) << 63) + 4096, size_t(1) << 62, size_t(1) << 32}) {
+            Http::Endpoint ep(Address(Ipv4::loopback(), Port(0)));
+            ep.init(Http::Endpoint::options().threads(1).flags(Tcp::Options::ReuseAddr).maxRequestSize(L));
+            ep.setHandler(Http::make_handler<IdHandler>());
+            ep.serveThreaded();
+            lv::Conn c; std::string buf; bool ok; std::string req = sized_request("huge", 120, 1, ok);
+            std::string wt = Json().str("phase", "c14s").str("limit", std::to_string(L)).num("total", 120).done();
+            set_case(-1, wt);
+            if (c.open_to(ep.getPort())) { c.send_all(req); lv::HttpMsg m = lv::read_response(c, buf, 0, (int)(5000 * lv::load_factor())); g_evals++;
+                if (!m.complete || m.status != 200) violation("c14:size:refused-within-limit:extreme-limit", "limit " + std::to_string(L) + ": a 120-byte request got status " + std::to_string(m.status) + " " + m.error, wt); }
+            { std::lock_guard<std::mutex> g(g_m); g_seen_ids.clear(); }
+            g_distinct.add("extreme|" + std::to_string(L));
+            count("extreme_limit_cases");
+            ep.shutdown();
+        }
+    }
     static const size_t LIMITS[] = {100, 512, 4096, 8192, 300};
     long idx = g_opts.shard * 1000000L;
     for (size_t li = 0; li < 5; li++) {
@@ -240,17 +258,37 @@ struct SpyTransport : public Tcp::Transport {
 };
 struct LifeHttpHandler : public Http::Handler {
     HTTP_PROTOTYPE(LifeHttpHandler)
+    static std::vector<std::unique_ptr<Http::ResponseWriter>>& parked() { static std::vector<std::unique_ptr<Http::ResponseWriter>> v; return v; }
+    static double& lastParked() { static double t = 0; return t; }
     void onRequest(const Http::Request& req, Http::ResponseWriter response) override {
         auto peer = response.peer();
         { std::lock_guard<std::mutex> g(g_m); PeerLife& l = g_life[peer->getID()]; if (l.disc) l.inputAfterDisc = true; if (l.events.size() < 64) l.events += 'R'; }
         if (req.resource() == "/armed") response.timeoutAfter(std::chrono::milliseconds(300));
         if (req.resource() == "/slow") lv::msleep(150);
+        if (req.resource() == "/stream") {
+            // a streamed response written from inside the handler: the peer may reset while it is being flushed
+            auto st = response.stream(Http::Code::Ok);
+            std::string chunk(20000, 's');
+            for (int k = 0; k < 6; k++) { st.write(chunk.data(), (std::streamsize)chunk.size()); try { st << Http::flush; } catch (const std::exception&) { break; } lv::msleep(15); }
+            try { st << Http::ends; } catch (const std::exception&) { }
+            return;
+        }
+        if (req.resource() == "/longpoll") {
+            // long-poll style: the handler arms a response time-out and keeps the writer without answering
+            // (the writer is parked first and armed where it will stay: arming it and moving it afterwards aborts the process when
+            // the moved-from writer is destroyed - Timeout's move leaves `armed` set and its continuation keeps the old address;
+            // that is a defect of the handler-facing API outside what C08 states, see DESIGN.md section 10)
+            Http::ResponseWriter* w = new Http::ResponseWriter(std::move(response));
+            w->timeoutAfter(std::chrono::milliseconds(250));
+            std::lock_guard<std::mutex> g(g_m); parked().emplace_back(w); lastParked() = lv::now();
+            return;
+        }
         if (req.resource() == "/big") { response.send(Http::Code::Ok, std::string(4 << 20, 'z')); return; }
         response.send(Http::Code::Ok, "ok");
     }
     void onDisconnection(const std::shared_ptr<Tcp::Peer>& peer) override { std::lock_guard<std::mutex> g(g_m); PeerLife& l = g_life[peer->getID()]; l.disc++; l.events += 'D'; }
 };
-static const char* BEHAVIOUR[] = {"connect-close", "partial-then-close", "exchange-then-close", "half-close-then-read", "reset", "reset-with-pending-response", "silence-until-idle-timeout", "armed-timeout-answered-before", "keepalive-3-requests-then-close", "exchange-then-silence-until-idle-timeout", "slow-request-keeps-worker-busy", "partial-then-immediate-close-while-worker-busy", "send-and-half-close-at-once-while-worker-busy"};
+static const char* BEHAVIOUR[] = {"connect-close", "partial-then-close", "exchange-then-close", "half-close-then-read", "reset", "reset-with-pending-response", "silence-until-idle-timeout", "armed-timeout-answered-before", "keepalive-3-requests-then-close", "exchange-then-silence-until-idle-timeout", "slow-request-keeps-worker-busy", "partial-then-immediate-close-while-worker-busy", "send-and-half-close-at-once-while-worker-busy", "request-a-streamed-response-then-reset", "long-poll-then-leave-before-the-response-time-out"};
 static std::atomic<int> g_foreign_bytes{0};
 static std::string g_foreign_detail;
 static void client_behaviour(int port, int b, bool http, Rng& r) {
@@ -276,6 +314,8 @@ static void client_behaviour(int port, int b, bool http, Rng& r) {
     case 10: c.send_all(http ? req("/slow") : "SLOW /x\n"); { std::string t; if (http) { lv::read_response(c, buf, 0, 3000); } else c.read_some(t, 1500); } break;
     case 11: lv::msleep(r.range(20, 90)); c.send_all(http ? "POST /x HTTP/1.1\r\nHost: x\r\nContent-Length: 50\r\n\r\nabc" : "hel"); break;   // bytes and FIN reach the busy worker together
     case 12: lv::msleep(r.range(20, 90)); c.send_all(http ? "GET /par" : "hel"); c.half_close(); lv::msleep(300); break;
+    case 13: c.send_all(http ? req("/stream") : "hello /x\n"); lv::msleep(r.range(5, 40)); c.rst_close(); return;
+    case 14: c.send_all(http ? req("/longpoll") : "hello /x\n"); lv::msleep(r.range(10, 80)); if (r.chance(1, 2)) { c.rst_close(); return; } break;
     case 9: c.send_all(req("/x")); readReply(); { bool eof = false; double end = lv::now() + 4.0; std::string t; while (!eof && lv::now() < end) c.read_some(t, 100, 1 << 20, &eof); } break;
     default: for (int k = 0; k < 3; k++) { c.send_all(req("/k" + std::to_string(k))); readReply(); } break;
     }
@@ -314,7 +354,7 @@ static void run_c08(long cases) {
         std::vector<int> behaviours;
         std::vector<std::thread> th;
         for (int k = 0; k < nclients; k++) {
-            int b = r.range(0, 12);
+            int b = r.range(0, 14);
             if (k == 0 && r.chance(1, 2)) b = 10;
             if (g_opts.num("behaviour", -1) >= 0) b = (int)g_opts.num("behaviour", -1);
             if (!http && (b == 6 || b == 7 || b == 9)) b = r.range(0, 5);
@@ -365,6 +405,12 @@ static void run_c08(long cases) {
         count("rounds"); count("connections", nclients);
         for (int b : behaviours) count(std::string("behaviour_") + BEHAVIOUR[b]);
         if (g_samples_left > 0) { g_samples_left--; sample(wt); }
+        {   // parked writers are destroyed here, off the worker, only once their timers have fired (a writer whose timer is still
+            // armed disarms it in its destructor, which belongs on the worker thread)
+            std::vector<std::unique_ptr<Http::ResponseWriter>> dead; double last;
+            { std::lock_guard<std::mutex> g(g_m); dead.swap(LifeHttpHandler::parked()); last = LifeHttpHandler::lastParked(); }
+            if (!dead.empty()) { while (lv::now() < last + 0.45) lv::msleep(10); for (int k = 0; k < 200; k++) { bool armed = false; for (auto& w : dead) armed |= w->timeout().isArmed(); if (!armed) break; lv::msleep(10); } }
+        }
         if (http) ep->shutdown(); else listener->shutdown();
         ep.reset(); listener.reset();
         lv::msleep(20);
